@@ -77,6 +77,12 @@ func (vp *VoteProcessor[Source, Data]) TallyVotes(ctx sdk.Context, validatorClai
 
 func (vp *VoteProcessor[Source, Data]) groupVotes(aggregateVotes []types.AggregateVote) map[Source][]DataWithVoter[Data] {
 	groupedVotes := make(map[Source][]DataWithVoter[Data])
+	type seenKey struct {
+		voter  string
+		source Source
+		data   Data
+	}
+	seen := make(map[seenKey]struct{})
 	for _, vote := range aggregateVotes {
 		for _, vd := range vote.VoteData {
 			voter, err := sdk.ValAddressFromBech32(vote.Voter)
@@ -89,6 +95,12 @@ func (vp *VoteProcessor[Source, Data]) groupVotes(aggregateVotes []types.Aggrega
 				if err != nil {
 					continue
 				}
+
+				key := seenKey{voter: voter.String(), source: source, data: data}
+				if _, dup := seen[key]; dup {
+					continue
+				}
+				seen[key] = struct{}{}
 
 				groupedVotes[source] = append(groupedVotes[source], DataWithVoter[Data]{
 					Data:  data,
